@@ -1051,6 +1051,15 @@ def P28(m, R):
                    pos_.get(id(n), 0) <= pos_.get(id(call), 1 << 30)]
         assigns.sort(key=lambda n: pos_.get(id(n), 0))
         last = assigns[-1] if assigns else None
+        for _ in range(4):      # plain copies `started = to_apply`: the list is the one copied, as it was built before the copy
+            if last is None or not isinstance(last.value, ast.Name):
+                break
+            L = last.value.id
+            lim_ = pos_.get(id(last), 0)
+            assigns = [n for n in scope if isinstance(n, (ast.Assign, ast.AnnAssign)) and norm(n.targets[0] if isinstance(n, ast.Assign) else n.target) == L and
+                       pos_.get(id(n), 0) <= lim_]
+            assigns.sort(key=lambda n: pos_.get(id(n), 0))
+            last = assigns[-1] if assigns else None
         defs = []
         if last is not None and not (isinstance(last.value, (ast.List, ast.Tuple)) and not last.value.elts) and not norm(last.value) == 'list()':
             defs = [last.value]
